@@ -40,6 +40,15 @@ PROPS = {
         "quick": {"shards": 16, "cases": 350, "watchdog_s": 1500, "require": {"evaluations": 10000, "threshold_pipelines_observed": 10000, "noisy_counts_checked": 50000, "released_keys_checked_against_base_data": 1500, "output_keys_checked": 8000}},
         "thorough": {"shards": 16, "cases": 10000, "watchdog_s": 14400, "require": {"evaluations": 300000}},
     },
+    "C05": {
+        "technique": "runtime monitoring: the privacy-unit-preserving rewriting executed on SQLite on D and on D restricted to each single unit (independent attribution of base rows along the declared foreign keys); the rows attributed to u in the full result must equal the result on D|u",
+        "level_text": "Exploration: ~10k tracked rewritings per quick run (maps with filters/expressions, joins tracked x tracked / tracked x public / public x tracked of several kinds, union, per-unit aggregation, DISTINCT, ORDER BY/LIMIT, row privacy) under both strategies, hashed and unhashed ids, with dangling references; ~5 restrictions each. Also: no NULL unit/weight, no row attributed to an unknown unit, a restricted database yields a single unit.",
+        "level_note": "Trusted: SQLite + compatibility layer (md5 cross-checked against RFC 1321 vectors), the independent unit attribution. Row-privacy ids are random: compared modulo the id column.",
+        "rule": ("3 (query, strategy) pairs per generated DP world (2..6 users); evaluation = one tracked result; distinct non-trivial = distinct (query, strategy, hash flag, instance shape) with a non-empty result."),
+        "assumptions": COMMON_ASSUME,
+        "quick": {"shards": 16, "cases": 300, "watchdog_s": 1500, "require": {"evaluations": 6000, "restrictions_executed": 20000, "tracked_results:Soft": 2000, "tracked_results:Hard": 3000}},
+        "thorough": {"shards": 16, "cases": 10000, "watchdog_s": 14400, "require": {"evaluations": 200000}},
+    },
     "C06": {
         "technique": "runtime monitoring: soundness oracle (independent membership) over value()/super_image() call pairs for every function and aggregate of the enums and for generated expression trees, violations localised to the lowest failing node",
         "level_text": "Exploration: for each of the 91 function variants, 20 aggregates and random expression trees (depth <= 4), argument types biased to range boundaries are drawn, several member values evaluated, and each result must lie in the propagated range (float tolerance 1e-9). ~3M judged evaluations per quick run; every function of the enum must have been evaluated or the run is inconclusive.",
